@@ -483,15 +483,9 @@ def gen_stack_x(rng, names, lev=False, rank_ok=True, flow_ok=True, raising=False
         sched = ["RunEveryNPeriods", nn, rng.randint(0, nn - 1)]
     elif r2 < 0.3:
         sched = ["RunAfterDays", rng.randint(1, 4)]
-    if sched[0] in ("RunOnce", "RunEveryNPeriods", "RunAfterDays"):
-        # a stack that can act on its very first call must not trade names that have no price yet (shadow copies are first called
-        # on the synthetic row): select on data
-        if wgh[0] != "WeighEqually" or sels[0][0] == "SelectThese":
-            sels, wgh = [["SelectAll"]], ["WeighEqually"]
-        elif not sel_safe(sels) or sels[0][0] in ("SelectWhere", "Require"):
-            # (a signal frame has no row for the synthetic date: something must have been selected before)
-            rest = [s for s in sels if not (s[0] == "SetStatSelectN" and not s[5].get("fs"))]
-            sels = ([] if rest and rest[0][0] == "SelectAll" else [["SelectAll"]]) + rest
+    # (a counting scheduler needs no special care any more: since the repair of StrategyBase.update a shadow copy is not run on the
+    # synthetic row, so a stack that acts on its very first call acts on the first real date - in the backtest's own tree and in every
+    # shadow copy alike; names without a price there are the business of `safe` in gen_spec_x, as for the calendar schedulers)
     last = ["Rebalance"]
     if rng.random() < 0.08:
         # RebalanceOverTime in place of Rebalance (no run_always wrapper: it is re-armed by every call that reaches it)
@@ -734,7 +728,8 @@ def ser_progx(bt, node, spec_node, bdates, first_row=1):
 
 
 def ser_simx(bt, root, spec_node, snaps, bdates, first_row=1):
-    """first_row: the row of the first run() call - 1 for the backtest's own tree, 0 for a shadow copy (stepped on the synthetic row)"""
+    """first_row: the row of the first run() call - 1 for the backtest's own tree and for every shadow copy (on row 0, the
+    synthetic row, a shadow copy is only updated: StrategyBase.update `inow != 0`)"""
     snaps.append(root)
     w = E.snap_world(bt, root)
     toks = [E.ser_world(w), ser_progx(bt, root, spec_node, bdates, first_row)]
@@ -742,7 +737,7 @@ def ser_simx(bt, root, spec_node, snaps, bdates, first_row=1):
     toks.append(str(len(subs)))
     for path, k in subs:
         toks.append(E.ser_path(path))
-        toks.append(ser_simx(bt, k._paper, spec_at(spec_node, root, k), snaps, bdates, 0))
+        toks.append(ser_simx(bt, k._paper, spec_at(spec_node, root, k), snaps, bdates, 1))
     return " ".join(toks)
 
 
